@@ -1,7 +1,8 @@
 (* C09 - property theorems only.  "reachable progs orc s" = s is the state after SOME
    schedule (any list of thread choices, any length) from the initial state in which
    poster i is asked to post progs[i] and the cost check answers orc. *)
-From Cell2V Require Import Common.Tac Common.ListX C09.Model C09.Spec C09.Proofs C09.Drain.
+From Cell2V Require Import Common.Tac Common.ListX C09.Model C09.Spec C09.Proofs C09.Drain C09.Compose.
+From Cell2V Require C03.Fifo.
 From Cell2V Require C09ring.Model C09ring.Spec C09ring.Proofs.
 
 (* the inductive invariant (counter/queue accounting, pause accounting, run accounting, the
@@ -89,6 +90,16 @@ Proof.
   exists n. cbv zeta. destruct (quiescent_drained _ _ _ R' Q) as [A [B [_ [_ E]]]]. auto.
 Qed.
 Print Assumptions C09_everything_delivered.
+
+(* composition with C03: the order theorems of C03 assume that the front-end's mailbox hands
+   over some interleaving ("Merge", C03/Fifo.v) of what the individual senders posted.  For
+   the mailbox model that is a theorem: at quiescence the user messages handed to the service
+   are a Merge of the posters' programmes (each tagged with its poster). *)
+Theorem C09_mailbox_is_merge : forall progs orc s,
+  reachable progs orc s -> quiescent s -> suspended s = false ->
+  C03.Fifo.Merge (posted progs) (deliveredU s).
+Proof. exact mailbox_is_merge. Qed.
+Print Assumptions C09_mailbox_is_merge.
 
 (* the queue abstractions used above are justified by the refinement theorems of C09ring:
    the goring ring buffer (growth at every capacity) is a FIFO list; the two-step mpsc push
